@@ -192,6 +192,7 @@ fn run_one(
                 focus: focus.to_string(),
                 size_cap: arg(args, "--size-cap").map(|x| x.parse().unwrap()).unwrap_or(usize::MAX),
                 event_cap: arg(args, "--event-cap").map(|x| x.parse().unwrap()).unwrap_or(usize::MAX),
+                unordered: !args.iter().any(|a| a == "--no-unordered"),
             };
             skew::run(cat, &cfg, stats, rs)
         }
